@@ -739,7 +739,7 @@ def gates():
         sp.parse_srt(fam.decode(i)["file"])
       except sp.GrammarError as e:
         raise HarnessError(f"generator {fam.name} index {i} is not grammatical: {e}")
-  return {"hand_examples": 16, "repo_test_literals": 14, "checks": n}
+  return {"hand_examples": 16, "repo_test_literals": 14, "generator_probes": 25, "checks": n}
 
 
 # ---------------------------------------------------------------------------------------------------
